@@ -119,6 +119,11 @@ def git_move_scenario(rng):
         A, B = {}, {}
         how = rng.choice(["copy-modified-source", "copy-modified-source", "rename", "rename+copy", "swap", "rename-dir"])
         A["f"] = content("f"); A["sub/g"] = content("g")
+        if rng.random() < 0.4:
+            # names git writes in quotes (a byte above 0x7f) or ends with a tab (a blank), in a directory that -pN keeps
+            q = rng.choice(["d/caf\xc3\xa9.txt", "d/a b.txt", "d/t\xe9"])
+            A[q] = content("q")
+            B[rng.choice(["d/moved \xc3\xa9", "e/" + q.split("/")[1], "d/plain"])] = A[q] if rng.random() < 0.6 else tweak(A[q])
         if how == "copy-modified-source":
             B["f"] = tweak(A["f"]); B["f2"] = tweak(A["f"]); B["sub/g"] = A["sub/g"]
         elif how == "rename":
@@ -131,7 +136,7 @@ def git_move_scenario(rng):
             B["f"] = A["f"]; B["other/g"] = tweak(A["sub/g"])
         for side, t in (("a", A), ("b", B)):
             for nm, ls in t.items():
-                fp = os.path.join(d, side, nm); os.makedirs(os.path.dirname(fp), exist_ok=True)
+                fp = os.path.join(os.fsencode(d), side.encode(), nm.encode("latin-1")); os.makedirs(os.path.dirname(fp), exist_ok=True)
                 open(fp, "wb").write(emit.file_bytes(ls))
         p = subprocess.run(["git", "diff", "--no-index", "--no-color", "--text", "-M", "-C", "a", "b"], cwd=d, capture_output=True,
                            env={"HOME": d, "PATH": "/usr/bin:/bin", "GIT_CONFIG_NOSYSTEM": "1"})
@@ -158,7 +163,8 @@ def producer_scenarios(rng, n):
     for _ in range(n):
         d = tempfile.mkdtemp(prefix="vprod")
         try:
-            prod = rng.choice(["diff -ruN", "diff -ruN", "diff -rN -U0", "diff -rN -U1", "diff -rcN", "diff -rN -C1", "diff -rN", "git"])
+            prod = rng.choice(["diff -ruN", "diff -ruN", "diff -rN -U0", "diff -rN -U1", "diff -rcN", "diff -rN -C1", "diff -rN", "git",
+                               "diff -rupN", "diff -rcpN", "diff -rN -C1 -F ^[a-z]"])
             # a normal diff names no file: one file, named on the command line
             nfiles = 1 if prod == "diff -rN" else rng.randint(1, 3)
             tree = {}
